@@ -11,6 +11,8 @@ import sys
 
 STATEFUL = ("bump", "read_counter")
 _counter = 0
+_DICE = random.Random(1234)  # module-level generator with an explicit seed
+_LOOSE = random.Random()  # module-level generator without a seed
 
 
 def shout(n, where):
@@ -141,6 +143,24 @@ def unseeded_rng(n):
     if sum(v) > 4 * n:
         return "high"
     return "low"
+
+
+def dice(n):
+    total = 0
+    for _ in range(n):
+        total += _DICE.randint(1, 6)
+    if total % 3 == 0:
+        return "fizz"
+    if total > 3 * n:
+        return "high"
+    return "low"
+
+
+def loose_dice(n):
+    vals = [_LOOSE.random() for _ in range(n)]
+    if vals and vals[-1] < 0.5:
+        return "lo"
+    return "hi"
 
 
 def shuffle_and_pick(items):
